@@ -805,6 +805,14 @@ func customCB(m *Matcher) func(any) (any, error) {
 		if m.T != "" && fmt.Sprintf("%T", val) != m.T {
 			return nil, fmt.Errorf("custom: expected %s got %T", m.T, val)
 		}
+		if r, ok := rawToAny(m.Ret).(string); ok && strings.HasPrefix(r, "@mask:") {
+			// a callback that edits the value it was given and hands the same object back
+			if mp, ok := val.(map[string]any); ok {
+				mp[strings.TrimPrefix(r, "@mask:")] = "***"
+				return mp, nil
+			}
+			return nil, fmt.Errorf("custom: expected an object, got %T", val)
+		}
 		return rawToAny(m.Ret), nil
 	}
 }
